@@ -1855,4 +1855,20 @@ pub mod verif_hooks {
             TabletParsingError::WrongTokenRange(_, _) => "WrongTokenRange",
         }
     }
+    /// `RawTablet::from_custom_payload(payload)` with the decoded content made visible:
+    /// `None`: no tablet entry in the payload; `Some(Err(class))`: refused;
+    /// `Some(Ok((first_token, last_token, replicas)))`: the `RawTablet`.
+    #[allow(clippy::type_complexity)]
+    pub fn raw_tablet_from_payload(
+        payload: &HashMap<String, Bytes>,
+    ) -> Option<Result<(i64, i64, Vec<(Uuid, Shard)>), &'static str>> {
+        Some(match RawTablet::from_custom_payload(payload)? {
+            Ok(raw) => Ok((
+                raw.first_token.value(),
+                raw.last_token.value(),
+                raw.replicas.replicas,
+            )),
+            Err(err) => Err(parsing_error_class(&err)),
+        })
+    }
 }
